@@ -109,7 +109,7 @@ def parse(txt):
             r["status"] = "ok"
         elif "VERIFICATION:- FAILED" in body:
             r["status"] = "failed"
-        if re.search(r"CBMC (failed|timed out)|out of memory|Status: ERROR|timed out|std::bad_alloc", body, re.I) and r["status"] == "none":
+        if re.search(r"CBMC (failed|timed out)|out of memory|Status: ERROR|timed out|std::bad_alloc", body, re.I) and not r["failed"]:
             r["status"] = "error"
             r["detail"] = " ".join(body.split())[-300:]
         res[name.split("::")[-1]] = r
@@ -142,8 +142,12 @@ def playback(crate_dir, lib_text, name, slot, timeout, log_prefix, descs=()):
     out = {"test": None, "values": None, "native": "not run", "check": None}
     cmd = ["cargo", "kani", "--target-dir", os.path.join(WORK, "slot%d" % slot), "--output-format", "terse",
            "-Z", "stubbing", "-Z", "concrete-playback", "--concrete-playback=print", "--exact", "--harness", MODPATH + name]
-    rc, txt, dt = vlib.run_cmd(cmd, cwd=crate_dir, timeout=timeout, mem_gb=12, log=log_prefix + "_print.log",
+    # kani-driver itself parses the JSON trace here: 12 GB of address space is not enough for it (measured), hence 24
+    rc, txt, dt = vlib.run_cmd(cmd, cwd=crate_dir, timeout=timeout, mem_gb=24, log=log_prefix + "_print.log",
                                env={"CARGO_NET_OFFLINE": "true"})
+    if rc == -9:
+        out["native"] = "not run: kani concrete playback did not finish within %d s" % timeout
+        return out
     tests = re.findall(r"```\n(.*?)```", txt, re.S)
     # one test is printed per failed check and per satisfied cover: take the one of a failed check of interest
     cand = [t for t in tests if "Check for `cover`" not in t]
